@@ -229,6 +229,9 @@ class FInt(SInt):
         raise EngineLimit("FInt power %r" % (k,))
 
     def __mod__(self, o):
+        if isinstance(o, SInt) and not isinstance(o, FInt):
+            from . import sym as _sym
+            return SInt(_sym.MOD(self.t, o.t))
         if isinstance(o, FInt) and o.name == "p":
             return FInt(self.F, self.res, (lin(0, 0), lin(1, -1)))
         raise EngineLimit("FInt %% %r (only reduction modulo the field prime is modelled)" % (o,))
@@ -534,7 +537,8 @@ class Field(object):
         self.learn_zero(st[k])
 
     def iv_of(self, v):
-        if isinstance(v.res, sp.Symbol) and v.res in self.ranges:
+        # refined ranges belong to the atom itself (an integer), not to other integers with the same residue (x % p)
+        if v.name is not None and isinstance(v.res, sp.Symbol) and v.res in self.ranges and str(v.res) == v.name:
             return self.ranges[v.res]
         return v.iv
 
@@ -558,7 +562,7 @@ class Field(object):
         truth = (self.ex.choose(2) == 0)
 
         def refine(v, lo=None, hi=None):
-            if not isinstance(v.res, sp.Symbol):
+            if not isinstance(v.res, sp.Symbol) or v.name is None or str(v.res) != v.name:
                 return
             cur = self.iv_of(v) or (None, None)
             nlo, nhi = cur
